@@ -8,18 +8,14 @@ Definition pord_of (l : list (nat * list pred)) (w : nat) : list pred :=
   match find (fun e => Nat.eqb (fst e) w) l with Some e => snd e | None => [] end.
 
 (* status 0 = built and finished, 1 = some call raised *)
-Definition run_case_gen (fixed : bool) (L : mlogic) (os : list op) (cord : list nat)
+Definition run_case (L : mlogic) (os : list op) (cord : list nat)
            (pordl : list (nat * list pred)) (ss : list sent) (ws : list nat) :=
-  match (if fixed then run_fixed else run) L cord (pord_of pordl) os with
+  match run L cord (pord_of pordl) os with
   | None => (1, ([], []), ([], []), [])
   | Some st =>
       (0, (aw (s_R st), ap (s_R st)), (s_fkeys st, s_consts st),
        map (fun s => map (fun w => res_code (value_of L st s w)) ws) ss)
   end.
-
-Definition run_case := run_case_gen false.
-(* the repaired classical completion (fixes/c08-identity.diff), used when /repo carries it *)
-Definition run_case_fixed := run_case_gen true.
 
 (* generaliser behaviour observed on the implementation: rows (values in
    iteration order, result); None = all rows reproduced *)
